@@ -399,6 +399,7 @@ fn sock_send_outcome(c: &SockSendCase) -> Outcome {
                 }
             }
             let mut expect = vec![];
+            let mut nreq = 0usize;
             for m in &msgs {
                 // what the application passes to send, and what must appear on the wire
                 let (app, wire): (Frames, Frames) = match kind {
@@ -415,8 +416,15 @@ fn sock_send_outcome(c: &SockSendCase) -> Outcome {
                     _ => (m.clone(), m.clone()),
                 };
                 if kind == Kind::Rep {
-                    // a reply needs a request
-                    link.raw_send_now(&[vec![], b"q".to_vec()]);
+                    // a reply needs a request; its payload may itself contain empty frames -
+                    // the reply still goes out behind exactly one delimiter
+                    nreq += 1;
+                    let req: Frames = match (nreq + msgs.len()) % 3 {
+                        0 => vec![vec![], b"q".to_vec()],
+                        1 => vec![vec![], b"a".to_vec(), vec![], b"c".to_vec()],
+                        _ => vec![vec![], vec![], b"x".to_vec(), vec![]],
+                    };
+                    link.raw_send_now(&req);
                     let r = sim.recv(s);
                     let _ = sim.run(r).await;
                 }
